@@ -146,6 +146,11 @@ impl Run {
         }
     }
 
+    /// removes and returns the stored violations (used when a run is only a collector)
+    pub fn take_violations(&self) -> Vec<Violation> {
+        std::mem::take(&mut *self.viols.lock().unwrap())
+    }
+
     pub fn violations_so_far(&self) -> u64 {
         self.viol_count.load(Ordering::SeqCst)
     }
